@@ -251,4 +251,10 @@ theorem pstate_chain_prev_some (c : CryptoOps) (key : Bytes) (pre : List PItem) 
   simp only [stateAfter]
   exact stateAfter_prev_some c key z _ (nextCalc_prev_some c key _ a ha) hz
 
+theorem entryAt_isNew_false (c : CryptoOps) (st : Calc) (d : Bytes) (e : Bool) (h : st.prev.isSome) :
+    (entryAt c st d e).isNew = false := by
+  cases hp : st.prev with
+  | none => rw [hp] at h; cases h
+  | some _ => simp [entryAt, hp]
+
 end AcraModel.AuditLog
